@@ -41,6 +41,11 @@ def run(project, chk):
     chk.floor("bounded-change obligations", n, 80)
     dmax = C.default_schedule_max(project)
     fi = project.func(C.GAC)
+    mut = getattr(project, "schedule_mutation", None)
+    if mut is not None:
+        mfi, mnode, q = mut
+        chk.fail("D3", mfi.short, norm_text(mnode), project.loc(mfi.module, mnode),
+                 f"the default tolerance schedule is the module-level object {q}, and this statement mutates it in place: after it has run, strict mode searches with a longer schedule (its bound of 5.0 is no longer a constant of the program)")
     chk.check(dmax <= C.STRICT_CAP, "D3", fi.short, "delta_e_sequence = [...]", project.loc(fi.module, fi.node),
               f"the default schedule's largest tolerance ({dmax}) does not exceed the strict-mode cap {C.STRICT_CAP}", how="maximum of the list literal",
               message=f"the default schedule reaches {dmax} > {C.STRICT_CAP}: strict mode can move a colour further than 5.0")
